@@ -277,12 +277,15 @@ func (executor *contractFunctionExecutor) executeWithInterpreter(
 	)
 
 	value, err := interpreter.InvokeFunction(inter, contractFunction, invocation)
+	verifEvent("ExecEnd", executor.context.Location, err == nil)
 	if err != nil {
 		return nil, err
 	}
 
 	// Write back all stored values, which were actually just cached, back into storage
+	verifEvent("CommitBegin", executor.context.Location, true)
 	err = environment.commitStorage(inter)
+	verifEvent("CommitEnd", executor.context.Location, err == nil)
 	if err != nil {
 		return nil, err
 	}
@@ -336,12 +339,15 @@ func (executor *contractFunctionExecutor) executeWithVM(
 		contractValue,
 		arguments...,
 	)
+	verifEvent("ExecEnd", executor.context.Location, err == nil)
 	if err != nil {
 		return nil, err
 	}
 
 	// Write back all stored values, which were actually just cached, back into storage
+	verifEvent("CommitBegin", executor.context.Location, true)
 	err = environment.commitStorage(context)
+	verifEvent("CommitEnd", executor.context.Location, err == nil)
 	if err != nil {
 		return nil, err
 	}
